@@ -115,6 +115,20 @@ impl Ev {
 
 const TOOLS: &[&str] = &["ls", "grep", "read", "write", "nope"];
 
+/// patches a model may produce: well formed, failing, and malformed in the ways models get them wrong
+pub const PATCHES: &[&str] = &[
+    "*** Begin Patch\n*** Add File: p{k}.txt\n+hello\n*** End Patch",
+    "*** Begin Patch\n*** Update File: seed.txt\n@@\n-seed\n+seed {k}\n*** End Patch",
+    "*** Begin Patch\n*** Update File: seed.txt\n@@\n seed\n\n+after a blank context line written without its space\n*** End Patch",
+    "*** Begin Patch\n*** Update File: missing{k}.txt\n@@\n-x\n+y\n*** End Patch",
+    "*** Begin Patch\n*** Delete File: nothing{k}.txt\n*** End Patch",
+    "*** Begin Patch\n*** Update File: seed.txt\n@@\n\n\n*** End Patch",
+    "not a patch at all",
+    "",
+    "*** Begin Patch\n*** Add File: q{k}.txt\n+a\n\n+b\n*** End Patch",
+    "*** Begin Patch\n*** Update File: seed.txt\n*** Move to: moved{k}.txt\n@@\n-seed\n+moved\n*** End Patch\n",
+];
+
 fn tool_args(name: &str, k: u64) -> String {
     match name {
         "ls" => json!({"path": "."}).to_string(),
@@ -124,6 +138,7 @@ fn tool_args(name: &str, k: u64) -> String {
         "write!" => json!({"bogus": k}).to_string(),
         "read?" => json!({"path": format!("missing{k}.txt")}).to_string(),
         "bash" => json!({"command": format!("echo hi >> b{k}.txt"), "cwd": "."}).to_string(),
+        "apply_patch" => json!({"patch": PATCHES[(k as usize) % PATCHES.len()].replace("{k}", &k.to_string())}).to_string(),
         _ => json!({"k": k}).to_string(),
     }
 }
